@@ -170,20 +170,24 @@ func rawClient(conn net.Conn, spec *clientSpec) (string, error) {
 	if _, _, _, err := sc.recvAuth(); err != nil {
 		return "auth", err
 	}
-	if err := sc.byteFrames(spec.Announce.encode()); err != nil {
-		return "nodeinfo", err
-	}
+	// like the real peer: write and read each message concurrently
+	werr := make(chan error, 1)
+	go func() { werr <- sc.byteFrames(spec.Announce.encode()) }()
 	var n int
 	var rerr error
 	wire.ReadBinary(&p2p.NodeInfo{}, sc, 10240, &n, &rerr)
+	if e := <-werr; e != nil {
+		return "nodeinfo", e
+	}
 	if rerr != nil {
 		return "nodeinfo", rerr
 	}
-	if err := sc.byteFrames(exchangeDataBytes([]byte(`{"chain_id":"c20"}`))); err != nil {
-		return "exchange", err
-	}
+	go func() { werr <- sc.byteFrames(exchangeDataBytes([]byte(`{"chain_id":"c20"}`))) }()
 	n, rerr = 0, nil
 	wire.ReadBinary(&p2p.ExchangeData{}, sc, 10240, &n, &rerr)
+	if e := <-werr; e != nil {
+		return "exchange", e
+	}
 	if rerr != nil {
 		return "exchange", rerr
 	}
@@ -475,6 +479,15 @@ func valNames(vs []*types.Validator) []string {
 }
 
 func monitorAdmission(o *rec) {
+	{ // harness self-test: the hand-written encodings are what go-wire produces
+		spec := nodeInfoSpec{PubKeyType: 1, PubKey: pubRaw(privPeer), Signd: "ab", Moniker: "peer", ListenAddr: "127.0.0.1:2", Other: []string{"x", ""}}
+		ni := &p2p.NodeInfo{PubKey: pubOf(privPeer), SigndPubKey: "ab", Moniker: "peer", Network: "c20net", ListenAddr: "127.0.0.1:2", Version: "0.0.0", Other: []string{"x", ""}}
+		ed := &p2p.ExchangeData{GenesisJSON: []byte("{}")}
+		if string(spec.encode()) != string(wire.BinaryBytes(ni)) || string(exchangeDataBytes([]byte("{}"))) != string(wire.BinaryBytes(ed)) {
+			o.Inconcl("harness self-test: hand encoding of NodeInfo / ExchangeData differs from go-wire")
+			return
+		}
+	}
 	rows := allRows()
 	var jobs []row
 	rng := lib.Rand("c20-d", 0)
